@@ -315,7 +315,8 @@ pub fn scenario(seed: u64, idx: u64) -> Trace {
         22 => {
             b.push(Op::CreateTable {
                 name: "Same".into(),
-                cols: vec![ColSpec::new("K", CType::I32).key(), ColSpec::new("A", CType::Str(0)), ColSpec::new("B", CType::Str(0)).nullable()],
+                // (A: an identifier that may not be null - a cell that loses its text is an invalid cell)
+                cols: vec![ColSpec::new("K", CType::I32).key(), ColSpec::new("A", CType::Str(0)).cat("Identifier"), ColSpec::new("B", CType::Str(0)).nullable()],
             });
             let s = Val::Str("Q77Qshared".into());
             let rows: Vec<Vec<Val>> = (0..32768 + rng.below(3) as i32).map(|i| vec![Val::Int(i), s.clone(), s.clone()]).collect();
